@@ -8,4 +8,5 @@ Clauses == {}
 BPs == << [entities |-> <<>>, wires |-> <<>>, extra |-> <<>>] >>
 Recs == << [id |-> "stub", stmts |-> <<>>, u |-> 1] >>
 Expect == <<>>
+Traces == <<>>
 ====
